@@ -4,9 +4,10 @@ C04 (half B): the statement-level closed-form lints fire exactly on their docume
 Per lint: `<lint>_sound` (a reported diagnostic implies the documented condition, `Doc.*`, written from
 docs/src/lints/<lint>.md) and `<lint>_canon*` (the documented canonical pattern, standing *anywhere* in the
 program — `Within (.block P) …`, any block position at any nesting depth, through function bodies in expressions
-too — is reported).  Where the code departs from the documentation the theorem carries the hypothesis that
-excludes the departure and a `decide`d witness shows the departure on the model; the driver reports the same
-departure on the real code (`[C04] … false-positive / missed-canonical`).
+too — is reported).  Where the code still departs from the documentation (mismatched_arg_count's definition map,
+multiple_statements inside a closure in an `if` condition) the theorem says what the code does and a witness shows
+the departure on the model; the driver reports the same departure on the real code (`[C04] … false-positive /
+missed-canonical`).  Former departures repaired in /repo (626a695, 7d0e4db, 820d472, 7450b57) are now positive theorems.
 -/
 import Selene.Lints.TraverseBLemmas
 import Selene.Lints.UnbalancedAssignments
@@ -44,8 +45,25 @@ theorem mem_run_of_within_stmt {P : Block} {s : Stmt} {g : Diag} (collect : Node
 section Unbalanced
 open UnbalancedAssignments
 
+/-- `expression_is_nil` is the documented "denotes nil" (parentheses looked through) -/
+theorem exprIsNil_eq : ∀ e : Expr, exprIsNil e = Doc.denotesNil e
+  | .paren _ e => by simp [exprIsNil, Doc.denotesNil, exprIsNil_eq e]
+  | .nil _ => by simp [exprIsNil, Doc.denotesNil]
+  | .true_ _ => by simp [exprIsNil, Doc.denotesNil]
+  | .false_ _ => by simp [exprIsNil, Doc.denotesNil]
+  | .dots _ => by simp [exprIsNil, Doc.denotesNil]
+  | .num _ => by simp [exprIsNil, Doc.denotesNil]
+  | .str _ _ _ => by simp [exprIsNil, Doc.denotesNil]
+  | .func _ _ _ => by simp [exprIsNil, Doc.denotesNil]
+  | .un _ _ _ => by simp [exprIsNil, Doc.denotesNil]
+  | .bin _ _ _ _ => by simp [exprIsNil, Doc.denotesNil]
+  | .tbl _ _ => by simp [exprIsNil, Doc.denotesNil]
+  | .var _ => by simp [exprIsNil, Doc.denotesNil]
+  | .call _ => by simp [exprIsNil, Doc.denotesNil]
+  | .unsupported _ => by simp [exprIsNil, Doc.denotesNil]
+
 theorem lintAssignment_sound {lhs : Nat} {rhs : List Expr} {g : Diag} (h : g ∈ lintAssignment lhs rhs) :
-    Doc.unbalanced lhs rhs ∨ (∃ last, rhs.getLast? = some last ∧ rhs.length < lhs ∧ parenthesisedNil last = true) := by
+    Doc.unbalanced lhs rhs := by
   unfold lintAssignment at h
   cases hl : rhs.getLast? with
   | none => simp [hl] at h
@@ -55,24 +73,19 @@ theorem lintAssignment_sound {lhs : Nat} {rhs : List Expr} {g : Diag} (h : g ∈
     | some first =>
       simp only [hl, hf] at h
       by_cases hm : rhs.length > lhs
-      · exact Or.inl ⟨last, hl, Or.inl hm⟩
+      · exact ⟨last, hl, Or.inl hm⟩
       · simp only [hm, if_false] at h
         by_cases hc : (rhs.length < lhs && !exprIsEllipsis last && !exprIsCall last && !exprIsNil last) = true
         · simp only [Bool.and_eq_true, Bool.not_eq_true', decide_eq_true_eq] at hc
           obtain ⟨⟨⟨hlt, he⟩, hcall⟩, hnil⟩ := hc
           have hmv : Doc.multiValued last = false := by
             cases last <;> simp_all [Doc.multiValued, exprIsEllipsis, exprIsCall]
-          by_cases hp : parenthesisedNil last = true
-          · exact Or.inr ⟨last, rfl, hlt, hp⟩
-          · refine Or.inl ⟨last, hl, Or.inr ⟨hlt, hmv, ?_⟩⟩
-            cases last <;> simp_all [Doc.denotesNil, exprIsNil, parenthesisedNil]
+          exact ⟨last, hl, Or.inr ⟨hlt, hmv, by rw [← exprIsNil_eq]; exact hnil⟩⟩
         · simp [hc] at h
 
-/-- soundness: a report comes from an assignment statement that is unbalanced in the documented sense — or whose
-    last value is a *parenthesised* `nil` (the one departure, see `unbalanced_paren_nil_witness`) -/
+/-- soundness: a report comes from an assignment statement that is unbalanced in the documented sense -/
 theorem unbalanced_assignments_sound {P : Block} {g : Diag} (h : g ∈ run P) :
-    ∃ s lhs rhs, Node.stmt s ∈ nBlock P ∧ assignShape s = some (lhs, rhs) ∧
-      (Doc.unbalanced lhs rhs ∨ (∃ last, rhs.getLast? = some last ∧ rhs.length < lhs ∧ parenthesisedNil last = true)) := by
+    ∃ s lhs rhs, Node.stmt s ∈ nBlock P ∧ assignShape s = some (lhs, rhs) ∧ Doc.unbalanced lhs rhs := by
   obtain ⟨n, hn, hg⟩ := List.mem_flatMap.mp h
   cases n with
   | stmt s =>
@@ -87,13 +100,35 @@ theorem unbalanced_assignments_sound {P : Block} {g : Diag} (h : g ∈ run P) :
   | last l => simp [collect] at hg
   | call c => simp [collect] at hg
 
-/-- `a, b = (nil)`: reported, although the last value is nil -/
+/-- model = documented condition, for every assignment whose last value is not a *parenthesised call* (which the
+    code, more lenient than the documentation, treats like a call) -/
+theorem lintAssignment_iff {lhs : Nat} {rhs : List Expr}
+    (hp : ∀ last, rhs.getLast? = some last → parenthesisedCall last = false) :
+    lintAssignment lhs rhs ≠ [] ↔ Doc.unbalanced lhs rhs := by
+  constructor
+  · intro h
+    cases hd : lintAssignment lhs rhs with
+    | nil => exact (h hd).elim
+    | cons g _ => exact lintAssignment_sound (g := g) (by rw [hd]; simp)
+  · rintro ⟨last, hl, hcase⟩
+    have hne : rhs ≠ [] := by intro h; subst h; simp at hl
+    obtain ⟨first, hf⟩ : ∃ first, rhs.head? = some first := ⟨rhs.head hne, List.head?_eq_some_head hne⟩
+    rcases hcase with hm | ⟨hlt, hmv, hnil⟩
+    · have hlt : lhs < rhs.length := hm
+      simp [lintAssignment, hl, hf, hm, hlt]
+    · have h1 : ¬ rhs.length > lhs := by omega
+      have hpc := hp last hl
+      have h2 : exprIsEllipsis last = false ∧ exprIsCall last = false := by
+        cases last <;> simp_all [Doc.multiValued, exprIsEllipsis, exprIsCall, parenthesisedCall]
+      have h3 : exprIsNil last = false := by rw [exprIsNil_eq]; exact hnil
+      simp [lintAssignment, hl, hf, h1, hlt, h2.1, h2.2, h3]
+
+/-- `a, b = (nil)` (formerly reported): a parenthesised nil is a nil -/
 def parenNilProgram : Block :=
   .mk (some ⟨0, 6⟩) (.cons (.assign ⟨0, 6⟩ (.cons (.name ⟨0, "a"⟩) (.cons (.name ⟨2, "b"⟩) .nil))
     (.cons (.paren ⟨4, 6⟩ (.nil ⟨5, "nil"⟩)) .nil)) .nil) .none
 
-theorem unbalanced_paren_nil_witness :
-    (run parenNilProgram).length = 1 ∧ Doc.denotesNil (.paren ⟨4, 6⟩ (.nil ⟨5, "nil"⟩)) = true := by decide
+theorem unbalanced_paren_nil_not_reported : run parenNilProgram = [] := by decide
 
 /-- a value that is certainly one non-nil value, spelled without parentheses -/
 def plainValue : Expr → Bool
@@ -351,14 +386,9 @@ end IfSameThenElse
 section IfsSameCond
 open IfsSameCond SideEffects
 
-/-- `side_effects.rs` is exactly the documented "performs a call" test *with bracket indices left unexamined* -/
-theorem suffixesSE_eq : ∀ ss : SuffixList, suffixesSE ss = Doc.callsSs false ss
-  | .nil => by simp [suffixesSE, Doc.callsSs]
-  | .cons s rest => by
-    cases s <;> simp [suffixesSE, Doc.callsSs, Doc.callsS, suffixSE, suffixesSE_eq rest]
-
 mutual
-theorem exprSE_eq : ∀ e : Expr, exprSE e = Doc.calls false e
+/-- `side_effects.rs` is exactly the documented "evaluating it performs a call" test -/
+theorem exprSE_eq : ∀ e : Expr, exprSE e = Doc.calls true e
   | .bin _ l _ r => by simp [exprSE, Doc.calls, exprSE_eq l, exprSE_eq r]
   | .paren _ e => by simp [exprSE, Doc.calls, exprSE_eq e]
   | .un _ _ e => by simp [exprSE, Doc.calls, exprSE_eq e]
@@ -373,21 +403,32 @@ theorem exprSE_eq : ∀ e : Expr, exprSE e = Doc.calls false e
   | .true_ _ => by simp [exprSE, Doc.calls]
   | .false_ _ => by simp [exprSE, Doc.calls]
   | .dots _ => by simp [exprSE, Doc.calls]
-theorem fieldsSE_eq : ∀ fs : FieldList, fieldsSE fs = Doc.callsFs false fs
+theorem fieldsSE_eq : ∀ fs : FieldList, fieldsSE fs = Doc.callsFs true fs
   | .nil => by simp [fieldsSE, Doc.callsFs]
   | .cons f rest => by simp [fieldsSE, Doc.callsFs, fieldSE_eq f, fieldsSE_eq rest]
-theorem fieldSE_eq : ∀ f : Field, fieldSE f = Doc.callsF false f
+theorem fieldSE_eq : ∀ f : Field, fieldSE f = Doc.callsF true f
   | .exprKey _ k v => by simp [fieldSE, Doc.callsF, exprSE_eq k, exprSE_eq v]
   | .nameKey _ _ v => by simp [fieldSE, Doc.callsF, exprSE_eq v]
   | .noKey v => by simp [fieldSE, Doc.callsF, exprSE_eq v]
   | .unsupported _ => by simp [fieldSE, Doc.callsF]
-theorem varSE_eq : ∀ v : Var, varSE v = Doc.callsV false v
+theorem varSE_eq : ∀ v : Var, varSE v = Doc.callsV true v
   | .name _ => by simp [varSE, Doc.callsV]
   | .expr _ p ss => by simp [varSE, Doc.callsV, prefixSE_eq p, suffixesSE_eq ss]
-theorem prefixSE_eq : ∀ p : Prefix, prefixSE p = Doc.callsP false p
+theorem prefixSE_eq : ∀ p : Prefix, prefixSE p = Doc.callsP true p
   | .expr e => by simp [prefixSE, Doc.callsP, exprSE_eq e]
   | .name _ => by simp [prefixSE, Doc.callsP]
+theorem suffixesSE_eq : ∀ ss : SuffixList, suffixesSE ss = Doc.callsSs true ss
+  | .nil => by simp [suffixesSE, Doc.callsSs]
+  | .cons s rest => by simp [suffixesSE, Doc.callsSs, suffixSE_eq s, suffixesSE_eq rest]
+theorem suffixSE_eq : ∀ s : Suffix, suffixSE s = Doc.callsS true s
+  | .args _ _ => by simp [suffixSE, Doc.callsS]
+  | .meth _ _ _ => by simp [suffixSE, Doc.callsS]
+  | .dot _ _ => by simp [suffixSE, Doc.callsS]
+  | .idx _ e => by simp [suffixSE, Doc.callsS, exprSE_eq e]
+  | .unsupported _ => by simp [suffixSE, Doc.callsS]
 end
+
+theorem exprSE_eq_doc (e : Expr) : exprSE e = Doc.callsE e := exprSE_eq e
 
 theorem cond_scan_sound {toks : List String} {seps : List Nat} {g : Diag} : ∀ {rest seen : List Expr},
     (∀ o ∈ seen, exprSE o = false) → g ∈ scan toks seps seen rest →
@@ -437,13 +478,13 @@ theorem cond_scan_sound {toks : List String} {seps : List Nat} {g : Diag} : ∀ 
         · exact Or.inr (Or.inl hx)
         · exact Or.inr (Or.inr hx)
 
-/-- soundness as the code is: a reported condition repeats, token for token, another condition of the same `if`,
-    and neither performs a call *outside bracket indices* -/
+/-- soundness: a reported condition repeats, token for token, another condition of the same `if`, and neither
+    performs a function call anywhere (the documented exclusion) -/
 theorem ifs_same_cond_sound {toks : List String} {seps : List Nat} {P : Block} {g : Diag} (h : g ∈ run toks seps P) :
     ∃ sp c b elifs els x y, Node.stmt (.if_ sp c b elifs els) ∈ nBlock P ∧
       x ∈ c :: elifs.toList.map elifCond ∧ y ∈ elifs.toList.map elifCond ∧
       simToks toks seps x.span = simToks toks seps y.span ∧ g.primary = y.span ∧ g.secondary = [x.span] ∧
-      Doc.calls false x = false ∧ Doc.calls false y = false := by
+      Doc.callsE x = false ∧ Doc.callsE y = false := by
   obtain ⟨n, hn, hg⟩ := List.mem_flatMap.mp h
   cases n with
   | stmt s =>
@@ -455,7 +496,7 @@ theorem ifs_same_cond_sound {toks : List String} {seps : List Nat} {P : Block} {
         · simp [hc] at ho
         · simp [hc] at ho; subst ho; simpa using hc
       obtain ⟨x, y, hx, hy, h1, h2, h3, h4, h5⟩ := cond_scan_sound hseen hg
-      refine ⟨sp, c, b, elifs, els, x, y, hn, ?_, hy, h3, h4, h5, by rw [← exprSE_eq]; exact h1, by rw [← exprSE_eq]; exact h2⟩
+      refine ⟨sp, c, b, elifs, els, x, y, hn, ?_, hy, h3, h4, h5, by rw [← exprSE_eq_doc]; exact h1, by rw [← exprSE_eq_doc]; exact h2⟩
       simp only [List.mem_append, List.mem_cons] at hx ⊢
       rcases hx with hx | hx
       · by_cases hc : exprSE c = true
@@ -465,18 +506,6 @@ theorem ifs_same_cond_sound {toks : List String} {seps : List Nat} {P : Block} {
   | block b => simp [collect] at hg
   | last l => simp [collect] at hg
   | call c => simp [collect] at hg
-
-/-- … hence the documented condition, for conditions in which no call hides inside a bracket index -/
-theorem ifs_same_cond_sound_doc {toks : List String} {seps : List Nat} {P : Block} {g : Diag} (h : g ∈ run toks seps P)
-    (hidx : ∀ e : Expr, e.span = g.primary ∨ [e.span] = g.secondary → Doc.calls true e = Doc.calls false e) :
-    ∃ sp c b elifs els x y, Node.stmt (.if_ sp c b elifs els) ∈ nBlock P ∧
-      x ∈ c :: elifs.toList.map elifCond ∧ y ∈ elifs.toList.map elifCond ∧
-      simToks toks seps x.span = simToks toks seps y.span ∧ g.primary = y.span ∧
-      Doc.callsE x = false ∧ Doc.callsE y = false := by
-  obtain ⟨sp, c, b, elifs, els, x, y, hn, hx, hy, h3, h4, h5, h6, h7⟩ := ifs_same_cond_sound h
-  refine ⟨sp, c, b, elifs, els, x, y, hn, hx, hy, h3, h4, ?_, ?_⟩
-  · unfold Doc.callsE; rw [hidx x (Or.inr h5.symm)]; exact h6
-  · unfold Doc.callsE; rw [hidx y (Or.inl h4.symm)]; exact h7
 
 /-- `if a[f()] then elseif a[f()] then end`, tokens `if a [ f ( ) ] then elseif a [ f ( ) ] then end` -/
 def indexCallCond (i : Nat) : Expr :=
@@ -490,9 +519,9 @@ def indexCallProgram : Block :=
 def indexCallToks : List String :=
   ["if", "a", "[", "f", "(", ")", "]", "then", "elseif", "a", "[", "f", "(", ")", "]", "then", "end"]
 
-/-- the departure: a call inside a bracket index is not seen, the repeated condition is reported -/
-theorem ifs_same_cond_index_witness :
-    (run indexCallToks [] indexCallProgram).map (·.primary) = [⟨9, 13⟩] ∧ Doc.callsE (indexCallCond 9) = true := by
+/-- (formerly reported) a call inside a bracket index is a call: the repeated condition is not reported -/
+theorem ifs_same_cond_index_not_reported :
+    run indexCallToks [] indexCallProgram = [] ∧ Doc.callsE (indexCallCond 9) = true := by
   decide
 
 mutual
@@ -556,12 +585,8 @@ theorem callsS_mono : ∀ s : Suffix, Doc.callsS false s = true → Doc.callsS t
   | .unsupported _ => by simp [Doc.callsS]
 end
 
-/-- the code never calls a condition side-effect free that the documentation does not: the only gap is the other way -/
 theorem exprSE_false_of_doc {e : Expr} (h : Doc.callsE e = false) : exprSE e = false := by
-  rw [exprSE_eq]
-  cases hf : Doc.calls false e with
-  | false => rfl
-  | true => have := calls_mono e hf; unfold Doc.callsE at h; rw [h] at this; cases this
+  rw [exprSE_eq_doc]; exact h
 
 /-- canonical `if foo then … elseif foo then … end` (conditions that perform no call), anywhere -/
 theorem ifs_same_cond_canon {toks : List String} {seps : List Nat} {P : Block} {sp esp : Span} {c c2 : Expr} {b b2 : Block}
@@ -744,16 +769,43 @@ end Mismatched
 section AlmostSwapped
 open AlmostSwapped SideEffects
 
+theorem candidate_shape {s : Stmt} {v : Var} {e : Expr} (h : candidate s = some (v, e)) :
+    ∃ sp, s = .assign sp (.cons v .nil) (.cons e .nil) := by
+  cases s <;> simp only [candidate] at h <;> try (cases h)
+  case assign sp vs es =>
+    cases vs with
+    | nil => simp [candidate] at h
+    | cons v' vr =>
+      cases vr with
+      | cons _ _ => simp [candidate] at h
+      | nil =>
+        cases es with
+        | nil => simp [candidate] at h
+        | cons e' er =>
+          cases er with
+          | cons _ _ => simp [candidate] at h
+          | nil =>
+            simp only [candidate] at h
+            by_cases hv : varSE v' = true
+            · simp [hv] at h
+            · simp [hv] at h
+              obtain ⟨rfl, rfl⟩ := h
+              exact ⟨sp, rfl⟩
+
 theorem swap_scan_sound (toks : List String) (g : Diag) : ∀ (l : List Stmt) (st : Option Swap) (pre : List Stmt),
-    (∀ sw, st = some sw → ∃ pre' s0 v0 e0, pre = pre' ++ [s0] ∧ candidate s0 = some (v0, e0) ∧
-        sw = ⟨(glue toks v0.span, glue toks e0.span), (stmtSpan s0).first⟩) →
+    (∀ sw, st = some sw → ∃ pre' s0 v0 e0, pre = pre' ++ [s0] ∧ candidate s0 = some (v0, e0) ∧ sw = remember toks s0 v0 e0) →
     g ∈ scan toks st l →
     ∃ p s1 s2 q v1 e1 v2 e2, pre ++ l = p ++ s1 :: s2 :: q ∧ candidate s1 = some (v1, e1) ∧ candidate s2 = some (v2, e2) ∧
-      glue toks e2.span = glue toks v1.span ∧ glue toks v2.span = glue toks e1.span ∧
+      nodeToks toks e2.span = nodeToks toks v1.span ∧ nodeToks toks v2.span = nodeToks toks e1.span ∧
       g.primary = ⟨(stmtSpan s1).first, e2.span.last⟩
   | [], st, pre, _, h => by simp [scan] at h
   | s :: rest, st, pre, hst, h => by
     have shift : pre ++ s :: rest = (pre ++ [s]) ++ rest := by simp
+    have remembered : ∀ v e, candidate s = some (v, e) → ∀ sw, some (remember toks s v e) = some sw →
+        ∃ pre' s0 v0 e0, pre ++ [s] = pre' ++ [s0] ∧ candidate s0 = some (v0, e0) ∧ sw = remember toks s0 v0 e0 := by
+      intro v e hc sw hsw
+      cases hsw
+      exact ⟨pre, s, v, e, rfl, hc, rfl⟩
     unfold scan at h
     cases hc : candidate s with
     | none =>
@@ -767,46 +819,40 @@ theorem swap_scan_sound (toks : List String) (g : Diag) : ∀ (l : List Stmt) (s
       | none =>
         simp only at h
         rw [shift]
-        refine swap_scan_sound toks g rest _ (pre ++ [s]) ?_ h
-        intro sw hsw
-        cases hsw
-        exact ⟨pre, s, v, e, rfl, hc, rfl⟩
+        exact swap_scan_sound toks g rest _ (pre ++ [s]) (remembered v e hc) h
       | some ls =>
-        simp only [List.mem_append] at h
-        rcases h with h | h
-        · obtain ⟨pre', s0, v0, e0, hpre, hc0, hls⟩ := hst ls rfl
-          by_cases hm : (ls.names.1 == glue toks e.span && ls.names.2 == glue toks v.span) = true
-          · simp only [hm, if_true, List.mem_singleton] at h
+        simp only at h
+        by_cases hm : completes toks ls v e = true
+        · simp only [hm, if_true] at h
+          rcases List.mem_cons.mp h with h | h
+          · obtain ⟨pre', s0, v0, e0, hpre, hc0, hls⟩ := hst ls rfl
             subst h
             subst hls
-            simp only [Bool.and_eq_true, beq_iff_eq] at hm
-            refine ⟨pre', s0, s, rest, v0, e0, v, e, by simp [hpre], hc0, hc, hm.1.symm, hm.2.symm, rfl⟩
-          · simp [hm] at h
-        · rw [shift]
-          exact swap_scan_sound toks g rest none (pre ++ [s]) (by intro sw hsw; cases hsw) h
+            simp only [completes, remember, Bool.and_eq_true, beq_iff_eq] at hm
+            exact ⟨pre', s0, s, rest, v0, e0, v, e, by simp [hpre], hc0, hc, hm.1.symm, hm.2.symm, rfl⟩
+          · rw [shift]
+            exact swap_scan_sound toks g rest none (pre ++ [s]) (by intro sw hsw; cases hsw) h
+        · simp only [hm] at h
+          rw [shift]
+          exact swap_scan_sound toks g rest _ (pre ++ [s]) (remembered v e hc) h
 
-/-- soundness as the code is: a report covers two adjacent single assignments `v₁ = e₁` `v₂ = e₂` of one block whose
-    *glued* texts cross over (`glue` = token texts concatenated without separators) -/
+/-- soundness = the documented condition: a report covers two adjacent statements of one block that are a
+    `foo = bar` `bar = foo` sequence, token for token -/
 theorem almost_swapped_sound {toks : List String} {P : Block} {g : Diag} (h : g ∈ run toks P) :
-    ∃ b p s1 s2 q v1 e1 v2 e2, Node.block b ∈ nBlock P ∧ (blockStmts b).toList = p ++ s1 :: s2 :: q ∧
-      candidate s1 = some (v1, e1) ∧ candidate s2 = some (v2, e2) ∧
-      glue toks e2.span = glue toks v1.span ∧ glue toks v2.span = glue toks e1.span ∧
-      g.primary = ⟨(stmtSpan s1).first, e2.span.last⟩ := by
+    ∃ b p s1 s2 q, Node.block b ∈ nBlock P ∧ (blockStmts b).toList = p ++ s1 :: s2 :: q ∧ Doc.swapPair toks s1 s2 ∧
+      g.primary.first = (stmtSpan s1).first := by
   obtain ⟨n, hn, hg⟩ := List.mem_flatMap.mp h
   cases n with
   | block b =>
     simp only [collect] at hg
-    obtain ⟨p, s1, s2, q, v1, e1, v2, e2, h0, r⟩ :=
+    obtain ⟨p, s1, s2, q, v1, e1, v2, e2, h0, hc1, hc2, ht1, ht2, hp⟩ :=
       swap_scan_sound toks g (blockStmts b).toList none [] (by intro sw hsw; cases hsw) hg
-    exact ⟨b, p, s1, s2, q, v1, e1, v2, e2, hn, by simpa using h0, r⟩
+    obtain ⟨sp1, rfl⟩ := candidate_shape hc1
+    obtain ⟨sp2, rfl⟩ := candidate_shape hc2
+    exact ⟨b, p, _, _, q, hn, by simpa using h0, ⟨v1, e1, v2, e2, sp1, sp2, rfl, rfl, ht1, ht2⟩, by rw [hp]⟩
   | stmt s => simp [collect] at hg
   | last l => simp [collect] at hg
   | call c => simp [collect] at hg
-
-/-- with token-wise equal texts the glued texts are equal too, so the documented pattern satisfies the code's test;
-    the converse fails (`almost_swapped_glue_witness`) -/
-theorem glue_of_nodeToks {toks : List String} {a b : Span} (h : nodeToks toks a = nodeToks toks b) : glue toks a = glue toks b := by
-  simp [glue, h]
 
 theorem swap_scan_append (toks : List String) : ∀ (bs : List Stmt) (st : Option Swap),
     ∃ d st', ∀ l, scan toks st (bs ++ l) = d ++ scan toks st' l
@@ -820,20 +866,52 @@ theorem swap_scan_append (toks : List String) : ∀ (bs : List Stmt) (st : Optio
       obtain ⟨v, e⟩ := ve
       cases st with
       | none =>
-        obtain ⟨d, st', h⟩ := swap_scan_append toks bs (some { names := (glue toks v.span, glue toks e.span), start := (stmtSpan s).first })
+        obtain ⟨d, st', h⟩ := swap_scan_append toks bs (some (remember toks s v e))
         exact ⟨d, st', fun l => by simp [scan, hc, h l]⟩
       | some ls =>
-        obtain ⟨d, st', h⟩ := swap_scan_append toks bs none
-        exact ⟨(if (ls.names.1 == glue toks e.span && ls.names.2 == glue toks v.span) = true then
-            [{ code := "almost_swapped", primary := ⟨ls.start, e.span.last⟩, msg := AlmostSwapped.msg ls.names }] else []) ++ d, st',
-          fun l => by simp only [List.cons_append, scan, hc, h l, List.append_assoc]⟩
+        by_cases hm : completes toks ls v e = true
+        · obtain ⟨d, st', h⟩ := swap_scan_append toks bs none
+          exact ⟨{ code := "almost_swapped", primary := ⟨ls.start, e.span.last⟩, msg := AlmostSwapped.msg ls.names } :: d, st',
+            fun l => by simp [scan, hc, hm, h l]⟩
+        · obtain ⟨d, st', h⟩ := swap_scan_append toks bs (some (remember toks s v e))
+          exact ⟨d, st', fun l => by simp [scan, hc, hm, h l]⟩
 
-/-- canonical `a = b` `b = a`, in any block anywhere in the program, **provided the statement before the pair (if
-    any) is not itself a single assignment** — see `almost_swapped_miss_witness` for why the proviso is needed -/
+/-- canonical `a = b` `b = a` in any block anywhere in the program, whatever precedes it: the pair is reported — or
+    its first statement already closes a reported swap with the statement before it (`b = a` `a = b` `b = a`) -/
 theorem almost_swapped_canon {toks : List String} {P b : Block} {before after : List Stmt} {s1 s2 : Stmt} {v1 v2 : Var} {e1 e2 : Expr}
     (hw : Within (.block P) (.block b)) (hb : (blockStmts b).toList = before ++ s1 :: s2 :: after)
     (h1 : candidate s1 = some (v1, e1)) (h2 : candidate s2 = some (v2, e2))
-    (ht1 : glue toks e2.span = glue toks v1.span) (ht2 : glue toks v2.span = glue toks e1.span)
+    (ht1 : nodeToks toks e2.span = nodeToks toks v1.span) (ht2 : nodeToks toks v2.span = nodeToks toks e1.span) :
+    ∃ g ∈ run toks P, g.primary = ⟨(stmtSpan s1).first, e2.span.last⟩ ∨ g.primary.last = e1.span.last := by
+  obtain ⟨d, st', hd⟩ := swap_scan_append toks before none
+  have hrun : ∀ g, g ∈ scan toks st' (s1 :: s2 :: after) → g ∈ run toks P := by
+    intro g hg
+    refine List.mem_flatMap.mpr ⟨.block b, within_block_mem hw, ?_⟩
+    simp only [collect, hb, hd, List.mem_append]
+    exact Or.inr hg
+  have hcomp : completes toks (remember toks s1 v1 e1) v2 e2 = true := by
+    simp [completes, remember, ht1, ht2]
+  have fresh : scan toks st' (s1 :: s2 :: after) = scan toks (some (remember toks s1 v1 e1)) (s2 :: after) →
+      ∃ g ∈ run toks P, g.primary = ⟨(stmtSpan s1).first, e2.span.last⟩ ∨ g.primary.last = e1.span.last := by
+    intro hst
+    refine ⟨{ code := "almost_swapped", primary := ⟨(stmtSpan s1).first, e2.span.last⟩,
+              msg := AlmostSwapped.msg (remember toks s1 v1 e1).names }, hrun _ ?_, Or.inl rfl⟩
+    rw [hst]
+    simp only [scan, h2, hcomp, if_true]
+    exact List.Mem.head _
+  cases st' with
+  | none => exact fresh (by simp [scan, h1])
+  | some ls =>
+    by_cases hm : completes toks ls v1 e1 = true
+    · refine ⟨{ code := "almost_swapped", primary := ⟨ls.start, e1.span.last⟩, msg := AlmostSwapped.msg ls.names }, hrun _ ?_, Or.inr rfl⟩
+      simp [scan, h1, hm]
+    · exact fresh (by simp [scan, h1, hm])
+
+/-- at the start of a block, or after a statement that is not a single assignment, it is the pair itself -/
+theorem almost_swapped_canon_fresh {toks : List String} {P b : Block} {before after : List Stmt} {s1 s2 : Stmt} {v1 v2 : Var} {e1 e2 : Expr}
+    (hw : Within (.block P) (.block b)) (hb : (blockStmts b).toList = before ++ s1 :: s2 :: after)
+    (h1 : candidate s1 = some (v1, e1)) (h2 : candidate s2 = some (v2, e2))
+    (ht1 : nodeToks toks e2.span = nodeToks toks v1.span) (ht2 : nodeToks toks v2.span = nodeToks toks e1.span)
     (hpre : before = [] ∨ ∃ bs x, before = bs ++ [x] ∧ candidate x = none) :
     ∃ g ∈ run toks P, g.primary = ⟨(stmtSpan s1).first, e2.span.last⟩ := by
   have key : ∃ d, scan toks none (before ++ s1 :: s2 :: after) = d ++ scan toks none (s1 :: s2 :: after) := by
@@ -847,29 +925,29 @@ theorem almost_swapped_canon {toks : List String} {P b : Block} {before after : 
       simp [scan, hx]
   obtain ⟨d, hd⟩ := key
   refine ⟨{ code := "almost_swapped", primary := ⟨(stmtSpan s1).first, e2.span.last⟩,
-            msg := AlmostSwapped.msg (glue toks v1.span, glue toks e1.span) }, ?_, rfl⟩
+            msg := AlmostSwapped.msg (remember toks s1 v1 e1).names }, ?_, rfl⟩
   refine List.mem_flatMap.mpr ⟨.block b, within_block_mem hw, ?_⟩
   simp only [collect, hb, hd, List.mem_append]
   right
-  simp [scan, h1, h2, ht1, ht2]
+  simp [scan, h1, h2, completes, remember, ht1, ht2]
 
-/-- `x = y` `a = b` `b = a` (tokens 0‥8): nothing is reported — comparing `a = b` with the pending `x = y` empties the slot -/
+/-- `x = y` `a = b` `b = a` (tokens 0‥8) — formerly missed: `a = b`, not completing a swap with `x = y`, is remembered -/
 def missProgram : Block :=
   let asg (i : Nat) (a b : String) : Stmt := .assign ⟨i, i + 2⟩ (.cons (.name ⟨i, a⟩) .nil) (.cons (.var (.name ⟨i + 2, b⟩)) .nil)
   .mk (some ⟨0, 8⟩) (.cons (asg 0 "x" "y") (.cons (asg 3 "a" "b") (.cons (asg 6 "b" "a") .nil))) .none
 
-theorem almost_swapped_miss_witness : run ["x", "=", "y", "a", "=", "b", "b", "=", "a"] missProgram = [] := by
+theorem almost_swapped_after_assignment_reported :
+    (run ["x", "=", "y", "a", "=", "b", "b", "=", "a"] missProgram).map (·.primary) = [⟨3, 8⟩] := by
   decide
 
-/-- `aandb = x` `x = a and b`: reported, because `a and b` glues to `aandb` -/
+/-- `aandb = x` `x = a and b` — formerly reported: the comparison is token by token now -/
 def glueProgram : Block :=
   .mk (some ⟨0, 7⟩) (.cons (.assign ⟨0, 2⟩ (.cons (.name ⟨0, "aandb"⟩) .nil) (.cons (.var (.name ⟨2, "x"⟩)) .nil))
     (.cons (.assign ⟨3, 7⟩ (.cons (.name ⟨3, "x"⟩) .nil)
       (.cons (.bin ⟨5, 7⟩ (.var (.name ⟨5, "a"⟩)) ⟨6, "and"⟩ (.var (.name ⟨7, "b"⟩))) .nil)) .nil)) .none
 
-theorem almost_swapped_glue_witness :
-    (run ["aandb", "=", "x", "x", "=", "a", "and", "b"] glueProgram).map (·.primary) = [⟨0, 7⟩] ∧
-    nodeToks ["aandb", "=", "x", "x", "=", "a", "and", "b"] ⟨5, 7⟩ ≠ nodeToks ["aandb", "=", "x", "x", "=", "a", "and", "b"] ⟨0, 0⟩ := by
+theorem almost_swapped_glued_not_reported :
+    run ["aandb", "=", "x", "x", "=", "a", "and", "b"] glueProgram = [] := by
   decide
 
 end AlmostSwapped
